@@ -3218,7 +3218,7 @@ RESUME_VALIDATE_CERTS:
         rc = -1;  /* Force the check on existence of user callback */
     }
 
-    if (rc < 0)
+    if (rc < 0 || ssl->err != SSL_ALERT_NONE)
     {
         psTraceInfo("WARNING: cert did not pass internal validation test\n");
         /*      Cert auth failed.  If there is no user callback issue fatal alert
